@@ -102,6 +102,21 @@ Print Assumptions C14_correct_solution_pointwise.
 Print Assumptions C14_correct_solution_in_space.
 Print Assumptions C14_transform_slices.
 Print Assumptions C14_transform_keys.
+Theorem C14_empty_solution_regenerated : forall rv t, valid_task t ->
+  (forall nv, In nv t -> Forall2 (fun sv c => in_domb sv c = true) (children (snd nv)) (rv (snd nv))) ->
+  length (gen_task_empty_solution rv t) = dimension t /\ in_spaceb t (gen_task_empty_solution rv t) = true.
+Proof. exact empty_solution_in_space. Qed.
+(* random solutions, regenerated end to end (Task.empty_solution over the regenerated randomize() of the variable classes; numpy's documented ranges are premises):
+   exactly one coordinate per dimension, each a member of its own variable's domain *)
+Theorem C14_random_solution_in_space : forall (du : xnum -> xnum -> xnum) (dc : nat -> nat) (dp : nat -> list nat) t,
+  (forall lo hi, is_fin lo = true -> is_fin hi = true -> xltb lo hi = true -> is_fin (du lo hi) = true /\ xleb lo (du lo hi) = true /\ xleb (du lo hi) hi = true) ->
+  (forall n, 1 <= n -> dc n < n) -> (forall n, is_permb n (dp n) = true) ->
+  valid_task t -> valid_flat t ->
+  let rv := fun v => gen_cmv_randomize (child_randomize du dc dp) (children v) in
+  length (gen_task_empty_solution rv t) = dimension t /\ in_spaceb t (gen_task_empty_solution rv t) = true.
+Proof. exact random_solution_in_space. Qed.
+Print Assumptions C14_empty_solution_regenerated.
+Print Assumptions C14_random_solution_in_space.
 Print Assumptions C14_variable_sizes_regenerated.
 Print Assumptions C14_has_children_regenerated.
 Print Assumptions C14_variable_bounds_regenerated.
